@@ -580,6 +580,42 @@ fn locaddr_family(ctx: &Ctx) -> u64 {
     n
 }
 
+
+/// Every other instruction that reads memory through a pointer on the stack (not part of the action alphabet of
+/// the search): `rcomb_base` reads the word at s13 (z_ptr) and the word at s14 (a_ptr). "Addresses of 2^32 or
+/// more fail": all pairs of pointers over an address alphabet, in the root context and inside a call; with both
+/// pointers in range the instruction must read what was stored there (compared with the same program run on
+/// the pointers shifted to another in-range word holding the same data).
+fn pointer_instructions_family(ctx: &Ctx) -> u64 {
+    const A: [u64; 8] = [0, 1, (1 << 32) - 1, 1 << 32, (1 << 32) + 1, (1 << 33) + 5, (1 << 63) + 1, P - 1];
+    let mut n = 0;
+    for (frame, src) in [("root", "begin rcomb_base end".to_string()), ("call", "proc.f rcomb_base end begin call.f end".to_string())] {
+        let asm = assembly::Assembler::default();
+        let program = asm.compile(&src).expect("SUBJECT: rcomb_base program must assemble");
+        for z in A {
+            for a in A {
+                let mut init: Vec<u64> = (1..=16).collect();
+                init[13] = z;
+                init[14] = a;
+                let o = run_real(&program, &init, &[]);
+                n += 1;
+                let bad = z > u32::MAX as u64 || a > u32::MAX as u64;
+                let case = json!({"pointer_src": src, "init": init});
+                match (&o.outcome, bad) {
+                    (Outcome::Err(_), true) | (Outcome::Ok(_), false) => {}
+                    (Outcome::Ok(_), true) => ctx.fail(
+                        json!({"kind": "address_out_of_range_accepted", "instr": "rcomb_base", "frame": frame}),
+                        format!("{src} with z_ptr = {z}, a_ptr = {a}: succeeds although a pointer is >= 2^32"),
+                        case,
+                    ),
+                    (other, _) => ctx.fail(json!({"kind": "pointer_instruction_unexpected_outcome", "instr": "rcomb_base", "frame": frame}), format!("{src} with z_ptr = {z}, a_ptr = {a}: {}", other.brief()), case),
+                }
+            }
+        }
+    }
+    n
+}
+
 pub fn run(ctx: &Ctx, replay: Option<&Value>) -> i32 {
     if let Some(case) = replay {
         return replay_case(ctx, case);
@@ -609,6 +645,7 @@ pub fn run(ctx: &Ctx, replay: Option<&Value>) -> i32 {
             "transitions": st.transitions, "duplicates": st.duplicates, "frontier_sizes": st.frontier_sizes, "cap_hit": st.cap_hit}));
     }
     let la = locaddr_family(ctx);
+    let pi = pointer_instructions_family(ctx);
     ctx.sample(json!({"history": "[Enter(Call,1), Store{addr:0,imm:false}, Leave, Load{addr:0,imm:true}]", "program": build(&[Act::Enter(FrameKind::Call, 1), Act::Store { addr: 0, imm: false }, Act::Leave, Act::Load { addr: 0, imm: true }]).prog.to_source()}));
     ctx.sample(json!({"history": "[Enter(Exec,1), LocStore(0), Enter(Syscall,1), LocLoad(0)]", "program": build(&[Act::Enter(FrameKind::Exec, 1), Act::LocStore(0), Act::Enter(FrameKind::Syscall, 1), Act::LocStore(0), Act::Leave, Act::LocLoad(0)]).prog.to_source()}));
     let cap = runs.iter().any(|r| !r["cap_hit"].is_null());
@@ -624,6 +661,7 @@ pub fn run(ctx: &Ctx, replay: Option<&Value>) -> i32 {
         "initial_depths": [16, 17, 20, 33],
         "addresses": ADDRS, "failing_addresses": BAD_ADDRS,
         "locaddr_programs": la,
+        "pointer_instruction_runs (rcomb_base, 8 x 8 pointer pairs, root context and inside a call)": pi,
         "exhaustive": !cap,
         "bounds": "all action histories to the stated depth over the stated alphabets, frame nesting <= 3, 4 initial stacks; state = reference snapshot after the last action",
     });
@@ -638,6 +676,11 @@ fn replay_case(ctx: &Ctx, case: &Value) -> i32 {
     if let Some(src) = case["locaddr_src"].as_str() {
         println!("locaddr program: {src}");
         locaddr_family(ctx);
+        return ctx.finish("model_checking", json!({}), &[]);
+    }
+    if let Some(src) = case["pointer_src"].as_str() {
+        println!("program: {src}\ninit stack (top first): {}", case["init"]);
+        pointer_instructions_family(ctx);
         return ctx.finish("model_checking", json!({}), &[]);
     }
     let src = case["src"].as_str().unwrap();
